@@ -1,5 +1,7 @@
+import GopatchModel.Spec.Sound
 import GopatchModel.FileM
 namespace Gopatch.C03
+open Gopatch
 
 /-- a metavariable on the '+' side that was never bound is an error, not a rewrite -/
 theorem unbound_metavar_errors (mt : Meta) (assoc : List (Nat × Nat)) (id : Nat) (fs : List V)
@@ -7,5 +9,101 @@ theorem unbound_metavar_errors (mt : Meta) (assoc : List (Nat × Nat)) (id : Nat
     (hm : mt.look (identName fs) = some k) (hu : d.lookMv (identName fs) = none) :
     ∃ e, replaceV mt assoc (.ptr "ast.Ident" id fs) d fb = .error e := by
   simp [replaceV, ignoredPtr, hm, hu]
+
+/-- every occurrence of a bound metavariable on the '+' side is replaced by a copy of the code
+it stood for at this site -/
+theorem metavar_replaced_by_copy (mt : Meta) (assoc : List (Nat × Nat)) (id : Nat) (fs : List V)
+    (d : Data) (fb : Bool) (k : Kind) (c : V)
+    (hm : mt.look (identName fs) = some k) (hb : d.lookMv (identName fs) = some c) :
+    replaceV mt assoc (.ptr "ast.Ident" id fs) d fb = .ok (copyV fb c) := by
+  simp [replaceV, ignoredPtr, hm, hb]
+
+mutual
+/-- the copy is syntactically identical to the captured code (the matcher of the captured value
+accepts it: same tree up to comments, objects and position values) -/
+theorem copy_is_identical : ∀ v, eqvM v (copyV true v) = true
+  | .pos b k => by cases b <;> simp [copyV, eqvM]
+  | .str _ => by simp [copyV, eqvM]
+  | .int _ => by simp [copyV, eqvM]
+  | .bool _ => by simp [copyV, eqvM]
+  | .nilP _ => by simp [copyV, eqvM, V.isNil]
+  | .nilI _ => by simp [copyV, eqvM, V.isNil]
+  | .nilS e => by
+      rw [copyV.eq_def]; simp only
+      rw [eqvM.eq_def]; simp only
+      by_cases h : dotsElem e = true <;> simp [h, V.isNil]
+  | .iface i v => by
+      rw [copyV.eq_def]; simp only
+      rw [eqvM.eq_def]; simp only
+      exact copy_is_identical v
+  | .slice e vs => by
+      rw [copyV.eq_def]; simp only
+      rw [eqvM.eq_def]; simp only
+      exact copyL_is_identical vs
+  | .ptr t id fs => by
+      rw [copyV.eq_def]; simp only
+      by_cases h : ignoredPtr t = true
+      · simp only [h, ↓reduceIte]
+        rw [eqvM.eq_def]; simp [h]
+      · simp only [h, Bool.false_eq_true, ↓reduceIte]
+        rw [eqvM.eq_def]; simp [copyL_is_identical fs]
+theorem copyL_is_identical : ∀ vs, eqvMs vs (copyVs true vs) = true
+  | [] => by simp [copyVs, eqvMs]
+  | v :: vs => by simp [copyVs, eqvMs, copy_is_identical v, copyL_is_identical vs]
+end
+
+mutual
+/-- every node of a copy is new -/
+def allFresh : V → Bool
+  | .iface _ v => allFresh v
+  | .slice _ vs => allFreshL vs
+  | .ptr _ id fs => id == 0 && allFreshL fs
+  | _ => true
+def allFreshL : List V → Bool
+  | [] => true
+  | v :: vs => allFresh v && allFreshL vs
+end
+
+mutual
+/-- the copy shares no node with the file: using a metavariable twice puts two separate copies
+into the result, never the same subtree twice -/
+theorem copy_is_fresh (fb : Bool) : ∀ v, allFresh (copyV fb v) = true
+  | .pos _ _ => by simp [copyV, allFresh]
+  | .str _ => by simp [copyV, allFresh]
+  | .int _ => by simp [copyV, allFresh]
+  | .bool _ => by simp [copyV, allFresh]
+  | .nilP _ => by simp [copyV, allFresh]
+  | .nilI _ => by simp [copyV, allFresh]
+  | .nilS _ => by simp [copyV, allFresh]
+  | .iface i v => by rw [copyV.eq_def]; simp only; rw [allFresh.eq_def]; simp only; exact copy_is_fresh fb v
+  | .slice e vs => by rw [copyV.eq_def]; simp only; rw [allFresh.eq_def]; simp only; exact copyL_is_fresh fb vs
+  | .ptr t id fs => by
+      rw [copyV.eq_def]; simp only
+      by_cases h : ignoredPtr t = true
+      · simp [h, allFresh]
+      · simp only [h, Bool.false_eq_true, ↓reduceIte]
+        rw [allFresh.eq_def]; simp [copyL_is_fresh fb fs]
+theorem copyL_is_fresh (fb : Bool) : ∀ vs, allFreshL (copyVs fb vs) = true
+  | [] => by simp [copyVs, allFreshL]
+  | v :: vs => by simp [copyVs, allFreshL, copy_is_fresh fb v, copyL_is_fresh fb vs]
+end
+
+/-- sites are rewritten independently: the value generated for a site is a function of that
+site's own bindings only -/
+theorem site_uses_own_bindings (c : Change) (assoc : List (Nat × Nat)) (s1 s2 : Site) (h : s1.data = s2.data) :
+    nodeReplace c assoc s1.data = nodeReplace c assoc s2.data := by rw [h]
+
+/-- a site is left unchanged only when the instantiated replacement is not admissible in that
+position (the only silent skip of the replacement loop) -/
+theorem skipped_iff_not_assignable (c : Change) (assoc : List (Nat × Nat)) (s : Site) (tree : V) (give : V)
+    (hg : nodeReplace c assoc s.data = .ok give) (hn : assignable give s.slotTy = false) :
+    applySites c assoc [s] tree = .ok tree := by
+  simp [applySites, hg, hn, bind, Except.bind, pure, Except.pure]
+
+/-- '+' tokens that are not metavariables appear verbatim: scalars are reproduced as they are -/
+theorem scalars_verbatim (mt : Meta) (assoc : List (Nat × Nat)) (d : Data) (fb : Bool) (s : String) (n : Int) (b : Bool) :
+    replaceV mt assoc (.str s) d fb = .ok (.str s) ∧ replaceV mt assoc (.int n) d fb = .ok (.int n) ∧
+    replaceV mt assoc (.bool b) d fb = .ok (.bool b) := by
+  simp [replaceV]
 
 end Gopatch.C03
